@@ -253,6 +253,9 @@ def gen_xml(apps):
     out = ["<diameter>"]
     for a in apps:
         out.append(f'<application id="{a["id"]}" type="auth" name="{esc(a["name"])}">')
+        if a.get("vendor_elem") is not None:
+            # as in the shipped 3GPP dictionary: names the vendor whose application this is; says nothing about any AVP's key
+            out.append(f'<vendor id="{a["vendor_elem"]}" name="V{a["vendor_elem"]}"/>')
         for n, c in a["cmds"]:
             out.append(f'<command code="{c}" short="X" name="{esc(n)}"><request></request><answer></answer></command>')
         for d in a["avps"]:
@@ -261,6 +264,8 @@ def gen_xml(apps):
                 at += f' must="{esc(d["must"])}"'
             if d.get("may") is not None:
                 at += f' may="{esc(d["may"])}"'
+            if d.get("must_not") is not None:
+                at += f' must-not="{esc(d["must_not"])}"'
             if d["vendor"] is not None:
                 at += f' vendor-id="{d["vendor"]}"'
             out.append(f'<avp {at}><data type="{esc(d["tyname"])}"/></avp>')
